@@ -228,7 +228,7 @@ CONTRACTS.update({
         returns=ANY,
         ensures=["select is _UNSET_SELECT or result is select",
                  "select is not _UNSET_SELECT or graph.selected is not None or result == '**'",
-                 "select is not _UNSET_SELECT or graph.selected is None or (isinstance(result, list) and len(result) == len(graph.selected) and all(result[i] == graph.selected[i] for i in range(len(graph.selected))))"],
+                 "select is not _UNSET_SELECT or graph.selected is None or (isinstance(result, list) and len(result) == len(graph.selected) and all(result[i] is graph.selected[i] for i in range(len(graph.selected))))"],
         mustfail="result is select",
     ),
     F + "_collect_all_outputs": dict(
@@ -313,6 +313,7 @@ CONTRACTS.update({
                 "all((n.name in deferred) == is_deferred(ready, n) for n in _seq1[:_i1])",
                 "forall_keys(lambda k: k not in deferred or any(n.name == k for n in _seq1[:_i1]), deferred)",
                 "not any(w in m.outputs and m.name != node.name for w in _seq[:_i] for m in ready)",
+                "node.name not in deferred",
             ]},
             {"invariant": [
                 "forall_keys(lambda k: (k in ready_outputs) == any(k in m.outputs for m in ready), ready_outputs)",
@@ -320,6 +321,7 @@ CONTRACTS.update({
                 "forall_keys(lambda k: k not in deferred or any(n.name == k for n in _seq1[:_i1]), deferred)",
                 "not any(w in m.outputs and m.name != node.name for w in _seq2[:_i2] for m in ready)",
                 "not any(name in m.outputs and m.name != node.name for m in _seq[:_i])",
+                "node.name not in deferred",
             ]},
         ],
         requires=["all(ready[i].name != ready[j].name for i in range(len(ready)) for j in range(len(ready)) if i != j)"],
